@@ -16,6 +16,7 @@ ALL = ['P_T', 'P_TA', 'P_N', 'F_T', 'F_TA', 'F_N', 'V_T', 'V_TA', 'V_N', 'M_T', 
 VARYING = ['V_T', 'V_TA', 'V_N', 'M_T', 'M_NA', 'VV_T']
 ALIGNED = ['P_TA', 'F_TA', 'V_TA', 'M_NA', 'VV_T']
 NONTRIV = ['P_N', 'F_N', 'V_N', 'M_NA']
+S5Q = ['P_T', 'P_TA', 'P_N', 'F_T', 'F_TA', 'F_N', 'V_T', 'V_TA', 'V_N', 'M_T', 'B_T', 'B_TA', 'VB_T']
 
 K_SEQ = {'SIZE', 'EMPTY', 'CAP', 'SHAPE', 'VALUES', 'RETURNED_ITERATOR', 'STATE', 'OBS_MISSING', 'OBS_OF_ABSENT'}
 K_MEM = {'BOUNDS', 'DATA_RANGE', 'DATA_EXCEEDS_MEMORY_CONSUMPTION', 'MEMORY_CONSUMPTION_EXCEEDS_BLOCK',
@@ -198,6 +199,21 @@ PROPS = {
                          'references) explored by TLC with one vector and two elements; projection of the vector and of '
                          'both elements (values, own block, allocator, layout, live objects) judged by Trace.tla after '
                          'every step'},
+    'C13': {'level': 'model_checking',
+            'units': {'quick': u('S5', S5Q), 'thorough': u('S5', ALL + ['B_T', 'B_TA', 'VB_T'], ('AE', 'NP'))},
+            'kinds': {'EQUALITY', 'VECTOR_EQUALITY'}, 'crash': crash_any, 'filter': None,
+            'technique': 'TLA+ model of two vectors over a three-valued domain (every pair of contents: equal, one field '
+                         'different, strict prefix, empty, different spare capacity) explored by TLC; complete truth tables '
+                         'of == and != for all operand kinds recorded under rotating junk patterns and compared with '
+                         'content equality as DEFINED in the spec (EqElem/EqElems)'},
+    'C14': {'level': 'model_checking',
+            'units': {'quick': u('S5', S5Q), 'thorough': u('S5', ALL + ['B_T', 'B_TA', 'VB_T'], ('AE', 'NP'))},
+            'kinds': {'RELATIONAL_INCONSISTENT', 'VECTOR_RELATIONAL_INCONSISTENT', 'COMPARE_DEPENDS_ON_OPERAND_KIND',
+                      'NOT_A_STRICT_ORDER', 'COMPARE_DEPENDS_ON_NON_CONTENT', 'VECTOR_ORDER'},
+            'crash': crash_any, 'filter': None,
+            'technique': 'same traces as C13; the laws of < (derived operators, strict order on all triples, compatibility '
+                         'with equality, independence of operand kind and of non-content, vector order = lexicographical '
+                         'extension of the observed element order) are judged over the recorded truth tables by Trace.tla'},
     'C16': {'level': 'model_checking',
             'units': {'quick': u('S1', ALL) + u('S2', ALL, ('NP',)),
                       'thorough': u('S1', ALL, ('AE', 'NP')) + u('S2', ALL, ('NP', 'AE', 'PR'))},
